@@ -330,6 +330,14 @@ class CallMixin:
             return T.sv_real(r)
         if name in ("nx.Graph", "nx.DiGraph", "networkx.Graph", "networkx.DiGraph") and not e.args and not e.keywords:
             return self.nx_new("NxDiGraph" if name.endswith("DiGraph") else "NxGraph")
+        if name in ("nx.betweenness_centrality", "nx.closeness_centrality", "networkx.betweenness_centrality", "networkx.closeness_centrality") \
+                and len(e.args) == 1 and not e.keywords:
+            # ASSUMED library contract: one value per vertex of the graph, a function of the graph (vertex set, links, weights) alone
+            g = self.ev(e.args[0], p)
+            if not (isinstance(g.ty, T.Obj) and g.ty.cls in NX_MODIFIES):
+                raise Unsupported(f"{name} of {g.ty}")
+            fn = TH.nx_centrality(name.rsplit(".", 1)[1], g.ty.cls)
+            return T.sv_map(T.INT, T.REAL, g.fields["_gv"].t, fn(g.fields["_gv"].t, g.fields["_ge"].t, g.fields["_gw"].dom, g.fields["_gw"].val))
         if name in ("np.zeros", "numpy.zeros") and len(e.args) == 1 and not e.keywords and isinstance(e.args[0], ast.Tuple) and len(e.args[0].elts) == 2:
             # np.zeros((r, c)): an r x c array of 0.0 (ValueError for a negative dimension); assumed library contract
             if "NpArray2" not in self.reg.layouts:
@@ -526,6 +534,10 @@ class CallMixin:
             return v
         if v.ty == T.EMPTYLIST:
             return SV(T.EMPTYSET)
+        if v.ty == T.TUP and self.cur is not None and "tuple_sets" in self.cur.options:
+            st = T.Set(T.INT)
+            self._assume(p, z3.Implies(TH.distinct_t(v.t), st.card()(TH.tset(v.t)) == TH.tlen(v.t)))
+            return T.scalar(st, TH.tset(v.t))        # axiom tset_def
         if v.ty == T.TUP:
             st = T.Set(T.INT)
             s = fresh("setoftup", st.sort())
@@ -1017,6 +1029,25 @@ class CallMixin:
 
     def ev_DictComp(self, e, p):
         target, it, ifs = self._comp_parts(e)
+        if isinstance(target, ast.Tuple) and len(target.elts) == 2 and all(isinstance(t, ast.Name) for t in target.elts) \
+                and isinstance(it, ast.Call) and isinstance(it.func, ast.Attribute) and it.func.attr == "items" and not it.args \
+                and isinstance(it.func.value, ast.Name) and isinstance(p.env.get(it.func.value.id, SV(T.NONE)).ty, T.Map):
+            # {f(k, v): g(k, v) for k, v in d.items()}  is  {f(k, d[k]): g(k, d[k]) for k in d}
+            kname, vname, dname = target.elts[0].id, target.elts[1].id, it.func.value.id
+
+            class _R(ast.NodeTransformer):
+                def visit_Name(self, n):
+                    if n.id == vname and isinstance(n.ctx, ast.Load):
+                        return ast.copy_location(ast.Subscript(value=ast.copy_location(ast.Name(id=dname, ctx=ast.Load()), n),
+                                                               slice=ast.copy_location(ast.Name(id=kname, ctx=ast.Load()), n), ctx=ast.Load()), n)
+                    return n
+            import copy as _copy
+            e2 = _copy.deepcopy(e)
+            e2.generators[0].target = ast.copy_location(ast.Name(id=kname, ctx=ast.Store()), target)
+            e2.generators[0].iter = ast.copy_location(ast.Name(id=dname, ctx=ast.Load()), it)
+            e2.key, e2.value = _R().visit(e2.key), _R().visit(e2.value)
+            e2.generators[0].ifs = [_R().visit(c) for c in e2.generators[0].ifs]
+            return self.ev_DictComp(ast.fix_missing_locations(e2), p)
         src = self.ev(it, p)
         if isinstance(src.ty, (T.Map, T.Set)):
             src = self.as_listing(src, p)
